@@ -11,7 +11,7 @@ import (
 // holding a lock, a real syscall inside a bubble, ...). That is harness trouble (exit 3), never a
 // violation. It must be armed from outside any bubble so that the timer is a real one.
 func watchdog(what string, done <-chan struct{}) *time.Timer {
-	d := time.Duration(envInt("VERIF_WATCHDOG_SECONDS", 120)) * time.Second
+	d := time.Duration(envInt("VERIF_WATCHDOG_SECONDS", 900)) * time.Second
 	return time.AfterFunc(d, func() {
 		select {
 		case <-done:
